@@ -35,6 +35,12 @@ HARNESS_ERROR = 3
 from vlib.jobs import Job  # noqa: E402
 
 
+import threading  # noqa: E402
+
+_ABORT = threading.Event()
+_PROCS = set()
+
+
 def _run_worker(module, job, twin):
     env = dict(os.environ)
     env["XSV_TWIN"] = "1" if twin else "0"
@@ -48,16 +54,29 @@ def _run_worker(module, job, twin):
         cmd = [PY, os.path.join(VERIF, "vlib", "z3worker.py"), module, job.fn, json.dumps(job.part), str(job.timeout)]
         hard = job.timeout * 1.5 + 60
     t0 = time.time()
+    if _ABORT.is_set():
+        out = {"status": "UNKNOWN", "error": "skipped (fail-fast)", "messages": []}
+        out["wall_s"], out["twin"], out["key"] = 0.0, twin, job.key
+        return out
+    proc = subprocess.Popen(cmd, stdout=subprocess.PIPE, stderr=subprocess.PIPE, text=True, env=env, cwd=VERIF)
+    _PROCS.add(proc)
     try:
-        p = subprocess.run(cmd, capture_output=True, text=True, timeout=hard, env=env, cwd=VERIF)
+        stdout, stderr = proc.communicate(timeout=hard)
         out = None
-        for line in p.stdout.splitlines():
+        for line in stdout.splitlines():
             if line.startswith("XSVRESULT "):
                 out = json.loads(line[len("XSVRESULT "):])
         if out is None:
-            out = {"status": "ERROR", "error": "no result line; rc=%s stderr=%s" % (p.returncode, p.stderr[-1500:])}
+            if _ABORT.is_set():
+                out = {"status": "UNKNOWN", "error": "killed (fail-fast)", "messages": []}
+            else:
+                out = {"status": "ERROR", "error": "no result line; rc=%s stderr=%s" % (proc.returncode, stderr[-1500:])}
     except subprocess.TimeoutExpired:
+        proc.kill()
+        proc.communicate()
         out = {"status": "UNKNOWN", "error": "hard timeout", "messages": []}
+    finally:
+        _PROCS.discard(proc)
     out["wall_s"] = round(time.time() - t0, 2)
     out["twin"] = twin
     out["key"] = job.key
@@ -182,8 +201,14 @@ def main():
             if args.fail_fast and not twin and not stop and results[j.key].get("status") in ("REFUTED", "SAT"):
                 # used by the seeded-change self test: the first refuted job is enough, skip what has not started yet
                 stop = True
+                _ABORT.set()
                 for other in futs:
                     other.cancel()
+                for pr in list(_PROCS):
+                    try:
+                        pr.kill()
+                    except Exception:  # noqa: BLE001
+                        pass
         if args.fail_fast:
             done_keys = set(results)
             jobs = [j for j in jobs if j.key in done_keys]
